@@ -4,7 +4,7 @@
    flight, any enabled one may advance; update_document compares document versions and keeps base_dict).
    `lastword w u` is what the client shows for u (the most recent publishDiagnostics, by provenance),
    `expected w u` what the property demands, `pubval w u` what doc_state would publish now. *)
-Require Import Base Server ServerProofs ServerSeq ServerConc ServerClose ServerVer C09Batch C09BatchProofs.
+Require Import Base Server ServerProofs ServerSeq ServerConc ServerClose ServerVer C09Batch C09BatchProofs C09Seq C09SeqProofs C09DictLock.
 
 (* ================================================================================================
    What does NOT hold (each with a concrete schedule on the faithful model; replayed on the real
@@ -445,3 +445,180 @@ Example C09_batch_overtaken_examples :
      close_overtaken (world0 0) uA (trace close_open_schedule (init close_open_history (world0 0))) = true /\
      freshb (y_world y) uA = false).
 Proof. exact overtaken_witnesses. Qed.
+
+(* ================================================================================================
+   Phase 4 (a): one handler at a time, EVERY kind of message, NO side condition on what the messages do.
+   Model/C09Seq.v: `sstep o w` = the big-step specification of the handler of o (what pull_config and the
+   dictionary files are read as, which documents are re-read from disk, what is installed and published);
+   `lagb w u` = the entry doc_state holds for u lags behind the client (text / dictionary files / parser
+   settings); `lag_after`, `f17b`, `f17c`, `f17d` = decidable predicates on (message, world before, url).
+   `proto_okb` = the client keeps the protocol: didOpen only of a document that is not open, the version of a
+   didChange is not older than the previous one - nothing else.
+   ================================================================================================ *)
+
+(* EVERY history (protocol-conforming or not): the handlers, run to completion one after the other instr by instr,
+   end in exactly the world the big-step specification gives; every entry of doc_state has the shape an update
+   leaves (WInv), and the last word of EVERY document is what doc_state would publish now - so whether a last
+   word is right is a question about doc_state alone *)
+Theorem C09_sequential_serialises :
+  forall h c w, run_seq h (world0 c) = Some w ->
+  w = sfold h (world0 c) /\ WInv w /\ forall u, lastword w u = pubval w u.
+Proof. exact sequential_serialises. Qed.
+Check C09_sequential_serialises :
+  forall h c w, run_seq h (world0 c) = Some w ->
+  w = sfold h (world0 c) /\ WInv w /\ forall u, lastword w u = pubval w u.
+Print Assumptions C09_sequential_serialises.
+
+(* The sequential clause at FULL strength, for every kind of message (didOpen/didChange/didSave/didClose/
+   didChangeWatchedFiles/HarperAddToUserDict/HarperAddToFileDict/HarperIgnoreLint/HarperRecordLint/
+   didChangeConfiguration) and every history of a client that keeps the protocol: a closed or deleted document ends
+   with [], a document without parser is right, and an open document is right IFF its entry does not lag (installed
+   text = newest client text, dictionary files as loaded = as they are now, parser settings = current settings).
+   Replaces the side conditions of C09_sequential_partial by an exact description *)
+Theorem C09_sequential_exact :
+  forall h c w,
+  proto_seqb h (world0 c) = true -> run_seq h (world0 c) = Some w ->
+  forall u, (lastword w u = expected w u <-> lagb w u = false) /\
+            (lookup u (w_open w) = None -> lastword w u = PEmpty) /\
+            (tracked w u = false -> lastword w u = expected w u).
+Proof. exact sequential_exact. Qed.
+Check C09_sequential_exact :
+  forall h c w,
+  proto_seqb h (world0 c) = true -> run_seq h (world0 c) = Some w ->
+  forall u, (lastword w u = expected w u <-> lagb w u = false) /\
+            (lookup u (w_open w) = None -> lastword w u = PEmpty) /\
+            (tracked w u = false -> lastword w u = expected w u).
+Print Assumptions C09_sequential_exact.
+
+(* one message from any reachable world (Reach = WInv + doc_state tracks exactly the open documents that have a
+   parser, with the client's language, ignore list and version): the handler computes sstep, and the world stays reachable *)
+Theorem C09_seq_step :
+  forall o w w', Reach w -> proto_okb w o = true -> run_op o w = Some w' ->
+  w' = sstep o w /\ Reach w'.
+Proof. exact reach_step. Qed.
+Check C09_seq_step :
+  forall o w w', Reach w -> proto_okb w o = true -> run_op o w = Some w' ->
+  w' = sstep o w /\ Reach w'.
+Print Assumptions C09_seq_step.
+
+(* in every reachable world: right IFF not lagging; closed documents have [] *)
+Theorem C09_seq_reach_exact :
+  forall w u, Reach w ->
+  (lastword w u = expected w u <-> lagb w u = false) /\ (lookup u (w_open w) = None -> lastword w u = PEmpty).
+Proof. exact reach_exact. Qed.
+Check C09_seq_reach_exact :
+  forall w u, Reach w ->
+  (lastword w u = expected w u <-> lagb w u = false) /\ (lookup u (w_open w) = None -> lastword w u = PEmpty).
+Print Assumptions C09_seq_reach_exact.
+
+(* WHO LAGS AFTER ONE MESSAGE, from any reachable world (lagging documents included): a document the handler
+   (re)installs (didOpen/didChange: the client's text; didSave/add-word command of u/didChangeConfiguration: the text
+   of the FILE, when it can be read) lags iff that text is not the client's buffer; any other tracked document keeps
+   its entry and lags iff that entry lags w.r.t. the dictionary files and settings as they are after the message *)
+Theorem C09_seq_step_exact :
+  forall o w w' u, Reach w -> proto_okb w o = true -> run_op o w = Some w' ->
+  lagb w' u = lag_after o w u.
+Proof. exact step_exact. Qed.
+Check C09_seq_step_exact :
+  forall o w w' u, Reach w -> proto_okb w o = true -> run_op o w = Some w' ->
+  lagb w' u = lag_after o w u.
+Print Assumptions C09_seq_step_exact.
+
+(* THE EXCEPTIONS, EXACTLY (both directions): a document that does not lag before a message lags after it IFF
+   F17b - an add-word command naming it / a configuration change re-reads it from its file while the buffer differs; or
+   F17c - HarperAddToUserDict of a new word names ANOTHER document (only that one is re-checked); or
+   F17d - an add-word command naming it / a configuration change really changes its dictionaries / the settings but the
+          document cannot be read from disk (untitled, or no such file).
+   Nothing else makes a sequential last word wrong (for a client that keeps the protocol) *)
+Theorem C09_seq_exceptions_exact :
+  forall o w w' u, Reach w -> proto_okb w o = true -> run_op o w = Some w' ->
+  lagb w u = false ->
+  (lagb w' u = true <-> f17b o w u = true \/ f17c o w u = true \/ f17d o w u = true).
+Proof. exact step_exceptions_exact. Qed.
+Check C09_seq_exceptions_exact :
+  forall o w w' u, Reach w -> proto_okb w o = true -> run_op o w = Some w' ->
+  lagb w u = false ->
+  (lagb w' u = true <-> f17b o w u = true \/ f17c o w u = true \/ f17d o w u = true).
+Print Assumptions C09_seq_exceptions_exact.
+
+(* didOpen / didChange of u, and didSave of u when u is a file (a document that stays open: the file has just been
+   written from the buffer), end with u not lagging WHATEVER its state was before - F17b/c/d are repaired by the
+   next edit or save of the document *)
+Theorem C09_seq_heals :
+  forall o w w' u, Reach w -> proto_okb w o = true -> run_op o w = Some w' ->
+  match o with
+  | Open v _ _ _ | Change v _ _ => u = v
+  | Save v => u = v /\ is_file v = true
+  | _ => False
+  end -> lagb w' u = false.
+Proof. exact step_heals. Qed.
+Check C09_seq_heals :
+  forall o w w' u, Reach w -> proto_okb w o = true -> run_op o w = Some w' ->
+  match o with
+  | Open v _ _ _ | Change v _ _ => u = v
+  | Save v => u = v /\ is_file v = true
+  | _ => False
+  end -> lagb w' u = false.
+Print Assumptions C09_seq_heals.
+
+(* every hypothesis above holds on a world with three open documents (unsaved changes / saved / untitled), and each
+   exception occurs: F17b, F17c, F17d for HarperAddToUserDict; F17b for HarperAddToFileDict; F17b, F17d for a
+   configuration change; none for the saved document, for a configuration change that changes nothing, for
+   didSave, for HarperIgnoreLint *)
+Example C09_seq_exceptions_nonvacuous :
+  let w := sfold sq_prefix (world0 0) in
+  proto_seqb sq_prefix (world0 0) = true /\ run_seq sq_prefix (world0 0) = Some w /\
+  lagb w sq_uA = false /\ lagb w sq_uB = false /\ lagb w sq_uU = false /\
+  f17b (AddUser 5 sq_uA) w sq_uA = true /\ f17c (AddUser 5 sq_uA) w sq_uB = true /\ f17c (AddUser 5 sq_uA) w sq_uU = true /\
+  f17d (AddUser 5 sq_uU) w sq_uU = true /\ exception (AddUser 5 sq_uB) w sq_uB = false /\
+  f17b (AddFile 6 sq_uA) w sq_uA = true /\ exception (AddFile 6 sq_uA) w sq_uB = false /\ exception (AddFile 6 sq_uB) w sq_uB = false /\
+  f17b (CfgChange 1 []) w sq_uA = true /\ f17d (CfgChange 1 []) w sq_uU = true /\ exception (CfgChange 1 []) w sq_uB = false /\
+  exception (CfgChange 0 []) w sq_uU = false /\ exception (Save sq_uA) w sq_uA = false /\ exception (Ignore sq_uA 3) w sq_uA = false.
+Proof. exact exceptions_demo. Qed.
+
+(* a history with every kind of message: two F17b (healed by the didSave), F17c + F17d on the untitled document (never healed) *)
+Example C09_sequential_exact_nonvacuous :
+  proto_seqb sq_history (world0 0) = true /\
+  exists w, run_seq sq_history (world0 0) = Some w /\ w = sfold sq_history (world0 0) /\
+    lagb w sq_uA = false /\ freshb w sq_uA = true /\
+    lagb w sq_uU = true /\ freshb w sq_uU = false /\
+    freshb w sq_uB = true /\ freshb w (UFile 1 0) = true /\ lastword w sq_uB = PEmpty.
+Proof. exact sequential_exact_demo. Qed.
+
+(* ================================================================================================
+   Phase 4 (b): Backend.dict_write_lock (cfbe845) is in the model (world.s_dlock: ILoadUD / ILoadFD wait for it
+   and take it, IWriteUD / IWriteFD release it).
+   ================================================================================================ *)
+
+(* For EVERY history (any messages) and EVERY schedule of the dispatcher (instr granularity, up to four handlers in
+   flight, any order): when everything has been handled, the word of every HarperAddToUserDict is in the user
+   dictionary file and the word of every HarperAddToFileDict of a file is in that file's dictionary, no word that
+   was there is gone, and the lock is free again.  (Invariant: the lock is held iff some handler is between its load
+   and its save; there is at most one; what it loaded is still what the file holds.) *)
+Theorem C09_add_word_not_lost :
+  forall h w0 cs y,
+  s_dlock w0 = false -> run cs (init h w0) = Some y -> quiescent y ->
+  (forall x u, In (AddUser x u) h -> In x (w_udict (y_world y))) /\
+  (forall x u, In (AddFile x u) h -> is_file u = true -> In x (fdict_of (y_world y) u)) /\
+  (forall x, In x (w_udict w0) -> In x (w_udict (y_world y))) /\
+  (forall x u, In x (fdict_of w0 u) -> In x (fdict_of (y_world y) u)) /\
+  s_dlock (y_world y) = false.
+Proof. exact add_word_not_lost. Qed.
+Check C09_add_word_not_lost :
+  forall h w0 cs y,
+  s_dlock w0 = false -> run cs (init h w0) = Some y -> quiescent y ->
+  (forall x u, In (AddUser x u) h -> In x (w_udict (y_world y))) /\
+  (forall x u, In (AddFile x u) h -> is_file u = true -> In x (fdict_of (y_world y) u)) /\
+  (forall x, In x (w_udict w0) -> In x (w_udict (y_world y))) /\
+  (forall x u, In x (fdict_of w0 u) -> In x (fdict_of (y_world y) u)) /\
+  s_dlock (y_world y) = false.
+Print Assumptions C09_add_word_not_lost.
+
+(* three add-word commands in flight together: the second and third wait at their load while the first is between
+   its load and its save; all three words arrive *)
+Example C09_add_word_nonvacuous :
+  (exists y, run two_words_schedule (init two_words_history (world0 0)) = Some y /\ quiescentb y = true /\
+     w_udict (y_world y) = [5; 6] /\ fdict_of (y_world y) (UFile 0 0) = [7] /\ s_dlock (y_world y) = false) /\
+  (exists y, run [CAdmit; CAdmit; CRun 0] (init two_words_history (world0 0)) = Some y /\
+     s_dlock (y_world y) = true /\ step (CRun 1) y = None /\ step (CRun 0) y <> None).
+Proof. exact (conj two_words_run lock_blocks_second_load). Qed.
